@@ -446,6 +446,9 @@ theorem good_step (s : State) (op : Op) (h : Good s) (hg : Guard s op)
   | setVisible x v => exact ⟨inv_opSetVisible h.inv x v, fresh_opSetVisible hc h.inv h.fresh x v⟩
   | setLeft x v => exact ⟨inv_opSetOffset h.inv x true v, fresh_opSetOffset hc h.inv h.fresh x true v⟩
   | setTop x v => exact ⟨inv_opSetOffset h.inv x false v, fresh_opSetOffset hc h.inv h.fresh x false v⟩
+  | setAttr x =>
+    simp only [step, Op.target]
+    split <;> exact h
   | observe o => exact ⟨(observe_same s o).inv h.inv, fresh_observe o h.fresh⟩
 
 theorem good_run (s : State) (ops : List Op) (h : Good s) (hg : Guarded .current s ops) :
